@@ -46,6 +46,8 @@ def make_k1(fam, opname, attr):
             assume(fk == 0)
         if opname == "sentinel":
             assume(0 <= fk <= 3)
+        if opname == "transform_identity_kw":
+            P["other"] = None
         op = k1_ops(opname, attr, P, bool(inplace), True, bool(if_))
         return run_op(o, op, f"C05/K1/{opname}" + (f"/{op.note}" if opname == "sentinel" else ""))
 
@@ -72,7 +74,7 @@ def make_k5(fam, opname):
     NS = FAMILIES[fam]
 
     def h(x0: int, n0: int, i1: int, sel3: int, inplace: bool) -> str:
-        P = dict(x0=x0, n0=n0, i1=i1, sel3=sel3)
+        P = dict(x0=x0, n0=n0, i1=i1, sel3=sel3, keyok=True, b1=True, i0=3)  # cache filled, z and dz assigned
         o = build_k5(NS, P)
         if opname.startswith("setattr"):
             assume(inplace)
@@ -135,7 +137,7 @@ def obligations(tier):
                 if fam == "lazy" and attr not in ("x", "s"):
                     continue
                 obs.append(Ob(f"C05.{fam}.K1.{opname}.{attr}", make_k1(fam, opname, attr), w1, f"K1.{attr}; helper form {opname}; conforming symbolic value; _inplace, _if symbolic; pre-state x,n,s symbolic", expect={"ok"}, timeout=T))
-        for opname in ("reset_all", "update2", "transform2", "sentinel"):
+        for opname in ("reset_all", "update2", "transform2", "sentinel", "transform_identity_kw"):
             obs.append(Ob(f"C05.{fam}.K1.{opname}", make_k1(fam, opname, "n"), w1, f"K1 top-level / sentinel form {opname}; symbolic values and flags", expect={"ok"} if opname != "sentinel" else set(), timeout=T))
         for opname in K3_OPS:
             for attr in ("inner", "inner2"):
